@@ -31,6 +31,9 @@ if TYPE_CHECKING:
     from ...data.resonaate_database import ResonaateDatabase
     from ...physics.time.stardate import JulianDate
 
+JULIAN_DATE_RESOLUTION: float = 1e-9
+"""``float``: tolerance (days, ~86 microseconds) when comparing Julian dates, about two ULPs of a present-day date."""
+
 __all__ = [
     "AgentRemovalEvent",
     "Event",
@@ -65,6 +68,11 @@ def getRelevantEvents(
     Returns:
         ``list``: relevant :class:`.Event` objects.
     """
+    # [NOTE]: Event times and window bounds are Julian dates computed in different ways, so a time that
+    #   coincides with a bound can differ from it by a few ULPs in either direction. Shift both bounds
+    #   by slightly more than that, so such a time always falls in the window that ends at the bound.
+    julian_date_lb = float(julian_date_lb) + JULIAN_DATE_RESOLUTION
+    julian_date_ub = float(julian_date_ub) + JULIAN_DATE_RESOLUTION
     event_alias = with_polymorphic(Event, "*")
     query = Query(event_alias).filter(
         event_alias.scope == event_scope.value,
